@@ -421,7 +421,7 @@ class Inliner(object):
                             continue
                         before = len(F['blocks'])
                         if self.inline_call(F, bi, ei, copy.deepcopy(G)):
-                            for nb in F['blocks'][before:]:
+                            for nb in F['blocks'][before:-1]:       # the helper's blocks; the last one is the caller's continuation
                                 for ne in nb['ev']:
                                     if ne.get('k') == 'call':
                                         ne['inl_depth'] = max(ne.get('inl_depth', 0), d + 1)
